@@ -606,6 +606,9 @@ func (g *Gen) Value(depth int, inObject bool) *Node {
 				}
 			}
 		}
+		if len(n.Refs) >= 2 && rng.IntN(6) == 0 {
+			n.R("type", `"mixed"`) // says what a choice is anyway
+		}
 		if inObject && rng.IntN(4) == 0 {
 			n.R("optional", "true")
 		}
